@@ -331,7 +331,9 @@ func Exp2(d Decimal) Decimal {
 	var expInt int16
 
 	if dSigInt != 0 {
-		if dSigInt > exponentBias+maxDigits {
+		// 2**20520 is above the largest Decimal and 2**-20520 is below a tenth
+		// of the smallest one.
+		if dSigInt > 20520 {
 			if d.Signbit() {
 				return zero(false)
 			}
